@@ -95,6 +95,34 @@ def rescaling_siblings(ck, rule, rule_dest):
     if hit == 0:
         ck.bad(rule, fm, "the normaliser has a branch for fixed-point inputs", "no isinstance(val, Fxp) arm", fm.node)
     ck.saw(fm)
+    # ---- functions.fxp_like: the value is stored into a copy of the reference (its format AND its modes)
+    try:
+        fl = prog.func("functions.fxp_like")
+    except AnalysisError:
+        fl = None
+    if fl is not None and fl.params:
+        xp = fl.params[0]
+        nret = 0
+        for pf in fpaths(prog, fl):
+            if pf.end != "return" or pf.ret is None:
+                continue
+            nret += 1
+            r = pf.ret
+            recv = None
+            if isinstance(r, ast.Call) and isinstance(r.func, ast.Attribute) and r.func.attr in ("set_val", "__call__"):
+                recv = r.func.value
+            elif isinstance(r, ast.Call) and isinstance(r.func, ast.Call):
+                recv = r.func                         # y(val): Fxp.__call__ (not peeled: .copy() is the point here)
+            elif isinstance(r, ast.Call):
+                recv = r                              # Fxp(val, like=x), or the copy itself after a statement-level y.set_val(val) / y(val)
+            okrecv = isinstance(recv, ast.Call) and ((isinstance(recv.func, ast.Attribute) and recv.func.attr in ("deepcopy", "copy") and dotted(recv.func.value) == xp)
+                                                     or (dotted(recv.func) in ("copy.deepcopy", "copy.copy") and recv.args and dotted(recv.args[0]) == xp)
+                                                     or (prog.is_fxp_ctor(fl, recv) and dotted(kw(recv, "like")) == xp))
+            ck.check(okrecv, rule_dest, fl, "fxp_like(x, val) stores into a copy of the reference x (its format and its rounding / overflow modes)",
+                     "returns %s" % src(pf.ret)[:70], pf.ret_stmt,
+                     "an object rebuilt from the sizes alone quantizes under the default modes, not under the reference's")
+        if nret:
+            ck.saw(fl, paths=nret)
     # __setitem__ and construction reach the normaliser through set_val: C01.R1
 
 
